@@ -8,6 +8,12 @@ LEVEL = "proof"
 def run(ctx):
     # theorems + backtracker-state correspondence (model replays the observed histories)
     generic.standard(ctx, "Props_C13", "c13bt", "backtracker-histories", lists=("M",))
+    # `bt-vs-stdlib` differences are compile-level findings (C15/C01: case folding, invalid UTF-8) seen through the
+    # backtracker; C13's verdict is aged-vs-fresh only, so they are kept as a note here and judged by C14/C15.
+    other = [v for v in ctx.violations if v.get("kind") == "bt-vs-stdlib"]
+    ctx.violations = [v for v in ctx.violations if v.get("kind") != "bt-vs-stdlib"]
+    if other:
+        ctx.notes.append("%d bt-vs-stdlib differences (compile-level findings, judged by C14/C15), e.g. %s" % (len(other), other[0].get("sig", "")[:160]))
     # API-level histories: aged value vs fresh value (oracle-free)
     hb = common.build_harness()
     stats = ctx.path("stats_api.json")
